@@ -1,10 +1,10 @@
 SPECIFICATION Spec
 CONSTANTS
-  DeliverPhase = "end"
+  DeliverPhase = "start"
   ImrVals <- ImrSmall
-  MaxDepth = 7
+  MaxDepth <- Unlimited
   MaxNest = 2
-  PcMod = 0
+  PcMod = 2
   AckOnReturn = FALSE
   RecordActs = FALSE
 INVARIANT DeliverOnlyIfEnabled
